@@ -87,6 +87,63 @@ def gen_direct(draw, tier):
             'tol': draw(st.sampled_from([0.0, 1e-8, 0.1, 0.5])), 'tensor': draw(gen_tensor_case())}
 
 
+def check_constructor_args(case, rec):
+    """
+    The constructors' arguments are operands too: building an MPS / MPO from NumPy arrays (for instance from another
+    object's qd / qD lists), then mutating the new object, must leave the arguments bit-for-bit unchanged.
+    """
+    from histories import snapshot, shares_memory
+    desc = case['obj']
+    qd = np.array(desc['qd'], dtype=np.int64)
+    qD = [np.array(q, dtype=np.int64) for q in desc['qD']]
+    s0 = (snap(qd), [snap(q) for q in qD])
+    cls = ptn.MPS if case['cls'] == 'mps' else ptn.MPO
+    rng = np.random.default_rng(desc['seed'])
+    if case['via'] == 'arrays':
+        obj = cls(qd, qD, fill='random', rng=rng)
+        args = [qd] + qD
+        donor = None
+    else:
+        # clone the charge structure of an existing object, as user code does: MPS(psi.qd, psi.qD, fill='random')
+        donor = cls(desc['qd'], desc['qD'], fill='random', rng=rng)
+        dsnap = snapshot(donor)
+        obj = cls(donor.qd, donor.qD, fill=case['fill'])
+        args = [donor.qd] + list(donor.qD)
+    for a in [obj.qd] + list(obj.qD) + list(obj.A):
+        for b in args:
+            require(not (a.size and b.size and np.shares_memory(a, b)), 'constructed object shares memory with a constructor argument')
+    mk = case['mutation']
+    try:
+        if mk == 0:
+            obj.zero_qnumbers()
+        elif mk == 1:
+            for q in obj.qD:
+                q += 5
+            obj.qd += 1
+        elif mk == 2:
+            obj.orthonormalize(mode='left'); obj.zero_qnumbers()
+        elif mk == 3:
+            obj.A[0][...] = 7
+            obj.qD[0][...] = 9
+    except Exception:
+        pass
+    if donor is None:
+        require((snap(qd), [snap(q) for q in qD]) == s0, 'mutating the constructed object altered the constructor arguments (qd / qD arrays)', mutation=mk)
+    else:
+        require(snapshot(donor) == dsnap, 'mutating an object built from another object\'s qd / qD altered that object', mutation=mk)
+    rec.label('cls_' + case['cls'], 'via_' + case['via'], 'mutation_%d' % mk)
+    rec.nontrivial = bool(any(x != 0 for q in desc['qD'] for x in q) or any(x != 0 for x in desc['qd']))
+
+
+@st.composite
+def gen_constructor_args(draw, tier):
+    from gen_qn import mps_desc, mpo_desc
+    cls = draw(st.sampled_from(['mps', 'mpo']))
+    obj = draw(mps_desc(Lmax=4, Dmax=3)) if cls == 'mps' else draw(mpo_desc(Lmax=3, Dmax=3))
+    return {'cls': cls, 'obj': obj, 'via': draw(st.sampled_from(['arrays', 'clone'])), 'fill': draw(st.sampled_from([1.0, 'random', 0.5])),
+            'mutation': draw(st.integers(0, 3))}
+
+
 def chain_snap(chains):
     return [(list(c.oids), list(c.qnums), c.coeff, c.istart) for c in chains]
 
@@ -116,7 +173,7 @@ def check_graph_inputs(case, rec):
         require(chain_snap(chains) == s0, 'from_opchains modified its chains')
         for c in chains:
             c.padded(cl['L'], OID_ID)
-            c.as_matrix({k: np.identity(1) for k in (-1, 0, 1, 2, 3, 4, 5)})
+            c.as_matrix({k: np.identity(1) for k in (-2, -1, 0, 1, 2, 3, 4, 5)})
         require(chain_snap(chains) == s0, 'padded / as_matrix modified a chain')
         g.simplify()
         require(chain_snap(chains) == s0, 'simplifying the compiled graph modified the chains')
@@ -129,7 +186,7 @@ def check_graph_inputs(case, rec):
         require([tree_snap(t) for t in trees] == s0, 'from_optrees modified its trees')
         for t in trees:
             t.height()
-            t.as_matrix({k: np.identity(1) for k in (-1, 0, 1, 2, 3, 4, 5)})
+            t.as_matrix({k: np.identity(1) for k in (-2, -1, 0, 1, 2, 3, 4, 5)})
         require([tree_snap(t) for t in trees] == s0, 'height / as_matrix modified a tree')
         rec.nontrivial = len(trees) >= 2
     elif kind == 'automaton':
@@ -187,6 +244,8 @@ def gen_graph_inputs(draw, tier):
 
 PARTS = [
     Part('histories', check_history, strategy=lambda tier: history(tier, 'c19'), n={'quick': 120, 'thorough': 1200}, workers={'quick': 8, 'thorough': 16}),
+    Part('constructor_args', check_constructor_args, strategy=gen_constructor_args, n={'quick': 150, 'thorough': 2000}, workers={'quick': 2, 'thorough': 16},
+         doc='MPS / MPO constructors called with NumPy arrays or with another object\'s qd / qD; the new object is mutated afterwards'),
     Part('direct_calls', check_direct, strategy=gen_direct, n={'quick': 150, 'thorough': 2500}, workers={'quick': 2, 'thorough': 16}),
     Part('graph_inputs', check_graph_inputs, strategy=gen_graph_inputs, n={'quick': 150, 'thorough': 2500}, workers={'quick': 2, 'thorough': 16}),
 ]
